@@ -316,3 +316,42 @@ Definition chk_end (ss : list segment) : bool :=
   last_sat sg_has_end ss && all_but_last (fun x => negb (sg_has_end x)) ss.
 Definition chk_segments (bs : list N) (m tid : N) (ss : list segment) : bool :=
   chk_sizes m ss && chk_concat bs ss && chk_tid tid ss && chk_start ss && chk_end ss.
+
+(* ---- session level: Client.Start, transfer id allocation, Client.handle ---- *)
+(* Client.Start: conf.SegmentMru, announced in the own SESS_INIT *)
+Definition tcc_own_segment_mru : N := 1048576.
+(* Client.Start hands the TransferManager state.SegmentMtu, the Segment MRU of the peer's
+   SESS_INIT, as its segment MTU (not the value announced by this node) *)
+Definition tcc_segment_mtu (own_mru peer_mru : N) : N := peer_mru.
+
+(* TransferManager.Send: id = atomic.AddUint64(&outNextId, 1) - 1, one indivisible step
+   (the wrap-around after 2^64 transfers of one session is not modelled) *)
+Definition tcc_alloc (next : N) : N * N := (next, next + 1).
+Fixpoint tcc_alloc_n (next : N) (n : nat) : list N :=
+  match n with
+  | O => []
+  | S k => fst (tcc_alloc next) :: tcc_alloc_n (snd (tcc_alloc next)) k
+  end.
+
+(* what the peer sees of the transfer with id t within the XFER_SEGMENT trace of a session *)
+Definition tcc_for_tid (t : N) (tr : list segment) : list segment :=
+  filter (fun s => sg_tid s =? t) tr.
+
+(* the k bundles [bss] sent on a session whose next transfer id is [next], to a peer that announced
+   Segment MRU [peer]: ids in the order of the (atomic) allocations, segment sequences *)
+Definition tcc_session_xfers (next : N) (bss : list (list N)) : list (N * list N) :=
+  combine (tcc_alloc_n next (length bss)) bss.
+Definition tcc_session_segs (own peer next : N) (bss : list (list N)) : list (list segment) :=
+  map (fun x => segments (snd x) (tcc_segment_mtu own peer) (fst x)) (tcc_session_xfers next bss).
+
+(* peer-side checker of a whole session trace for the transfers xs = (id, encoding): every
+   transfer appears as one well-formed segment sequence with segments of at most [m] bytes, and no
+   segment belongs to anything else *)
+Definition tcc_chk_trace (m : N) (xs : list (N * list N)) (tr : list segment) : bool :=
+  forallb (fun x => chk_segments (snd x) m (fst x) (tcc_for_tid (fst x) tr)) xs
+  && forallb (fun s => existsb (fun x => fst x =? sg_tid s) xs) tr.
+
+(* Client.handle: one ReceivedBundle report per bundle the TransferManager hands up, in that
+   order; the report points to a variable declared in the loop body, i.e. to a copy of its own
+   that later bundles do not change *)
+Definition tcc_reports (tr : list segment) : list (list N) := map snd (rx_delivered tr).
